@@ -17,7 +17,7 @@ meta = {
  "origin": "independent sub-agent (saw only the property record and a scratch worktree without the contract files)",
  "breaks": breaks, "needs": needs,
  "confirmed": ["existing tests of the touched packages pass with the change", "demo fails with the change", "demo passes without it",
-               "re-run by tools/confirm_seed.sh in the scratch worktree: " + ("CONFIRMED" if "CONFIRMED" in conf and "NOT CONFIRMED" not in conf else "see notes")],
+               "re-run by tools/confirm_seed.sh in the scratch worktree: " + ("CONFIRMED" if ("CONFIRMED" in conf and "NOT CONFIRMED" not in conf) or ("fails as expected" in conf and "passes" in conf and "UNEXPECTED" not in conf) else "see notes")],
  "detected_by": det,
  "ran": "tools/confirm_seed.sh (existing tests / demo with / demo without), tools/try_seed.sh (registered check against the scratch worktree with the patch applied; evidence redirected)",
  "check_output": [l for l in tr.splitlines() if l.startswith(("property", "VIOLATION", "  failed", "exit="))][:8],
